@@ -226,5 +226,25 @@ def run(chk: core.Check):
 
 def replay(rec, chk):
     bib = core.import_repo()
-    raise core.MachineryError("replay of C10 cases: re-run `bin/check C10` (cases are regenerated deterministically); "
-                              "the replay file holds the concrete value, options and expected result")
+    i, clause = rec["input"], rec["clause"]
+    value = i["value"]
+    inplace = i.get("inplace", False)
+    as_string = i.get("string", False)
+    key = i.get("key", "title") if not as_string else "-"
+    exp = rec["expected"]
+    try:
+        if clause in ("strip_one_layer", "strip_raised"):
+            got = val_of(mw_remove(bib, inplace).transform(mk_lib(bib, key, value, as_string)), key, as_string)
+        elif clause == "reparse":
+            M = bib.model
+            lib = bib.Library([M.Entry("article", "k", [M.Field("title", value)])])
+            o = {"reuse": False, "encInts": True, "def": i["default"]}
+            lib2 = bib.parse_string(bib.write_string(mw_add(bib, o, inplace).transform(lib), unparse_stack=[]))
+            ok = len(lib2.blocks) == 1 and len(lib2.entries) == 1 and [f.value for f in lib2.entries[0].fields] == [value]
+            return [[type(b).__name__, (b.raw or "")[:60]] for b in lib2.blocks], "one entry, one field, same content", ok
+        else:
+            src = mw_remove(bib, inplace).transform(mk_lib(bib, key, value, as_string)) if i.get("kept") else mk_lib(bib, key, value, as_string)
+            got = val_of(mw_add(bib, i["opts"], inplace).transform(src), key, as_string)
+    except Exception as ex:  # noqa
+        return f"{type(ex).__name__}: {ex}", exp, False
+    return got, exp, same(got, exp)
